@@ -70,7 +70,8 @@ PROPS_PART = {
                    'the last refill, send exactly min(n, rate*window - c0) responses and count each sent response once.',
         level_note='Concurrency itself is ASSUMED: std Mutex gives mutual exclusion, so the critical sections of concurrent calls are '
                    'serialised; schedules are not explored. The lemma also assumes no colliding stream takes over the bucket in between.',
-        verus=[dict(unit='rrl', which='all', labels=['C28'])],
+        verus=[dict(unit='rrl', which='all', labels=['C28', 'C26.step', 'C26.limit', 'C26.refill', 'C26.action_set', 'C26.send_unchanged', 'C26.drop_not_sent'])],
+        native=[dict(bin='bnd_rrl_concurrent', when='quick', bound='4 s of rounds: 7 sequential + 4 threads x 2 concurrent requests on a fresh stream, rate 4, window 2, slip 0; rounds >= 0.9 s skipped', what='exactly min(requests, rate*window) responses are sent under real thread interleavings (probabilistic detector of lost/double updates; adapted from the demonstration of seeded change C28-4)')],
         kani=[],
         cex={},
         unverified=['thread schedules / memory model (Kani has no threads; Verus contract is per call)'],
